@@ -4,6 +4,7 @@ import (
 	"fmt"
 	"go/token"
 	"go/types"
+	"regexp"
 	"strings"
 
 	"golang.org/x/tools/go/ssa"
@@ -832,7 +833,18 @@ func ruleIndexMapUse(rule string) ruleFn {
 					c.Bad(rule, key, "", "failed reader is not recorded", nil)
 				}
 				// a recorded failure is always reported: success is returned only with no recorded error
-				c.Guard(rule, fn, nilErrorReturns(fn), "return n,nil", nil, errorsEmpty(fn, "no reader failure recorded"))
+				// (the collection is whatever map the failed read was stored in)
+				emptyNeed := errorsEmpty(fn, "no reader failure recorded")
+				var maps []string
+				eachInstr(fn, func(in ssa.Instruction) {
+					if mu, ok := in.(*ssa.MapUpdate); ok && sameValue(mu.Value, errOfCall(call)) {
+						maps = append(maps, regexp.QuoteMeta(R.V(mu.Map)))
+					}
+				})
+				if len(maps) == 1 {
+					emptyNeed = atomMatching(fn, "no reader failure recorded", `^\+len\(`+maps[0]+`\) ==0$`)
+				}
+				c.Guard(rule, fn, nilErrorReturns(fn), "return n,nil", nil, emptyNeed)
 				// read source + gate
 				if idx != nil {
 					c.Guard(rule, fn, calls, "reader.ReadAt", nil, atom("backendsAvailable", "$0.backendsAvailable"))
